@@ -197,6 +197,21 @@ func c20Render(ops []c20Op) ([]c20Step, error) {
 		case "v.setb":
 			s.Src = fmt.Sprintf("%s[\"b\"] = %s", h, k)
 			s.Chk = fmt.Sprintf("%s[\"b\"] == %s", h, k)
+		case "clr.i":
+			s.Src = fmt.Sprintf("%s.i = None", h)
+			s.Chk = fmt.Sprintf("%s.i == 0", h)
+		case "clr.sub":
+			s.Src = fmt.Sprintf("%s.sub = None", h)
+			s.Chk = fmt.Sprintf("str(%s.sub) == str(T())", h)
+		case "clr.r":
+			s.Src = fmt.Sprintf("%s.r = None", h)
+			s.Chk = fmt.Sprintf("list(%s.r) == []", h)
+		case "clr.rm":
+			s.Src = fmt.Sprintf("%s.rm = None", h)
+			s.Chk = fmt.Sprintf("list(%s.rm) == []", h)
+		case "clr.mp":
+			s.Src = fmt.Sprintf("%s.mp = None", h)
+			s.Chk = fmt.Sprintf("dict(%s.mp) == {}", h)
 		case "freeze":
 			s.Src = fmt.Sprintf("freeze(%s)", h)
 		default:
